@@ -9,12 +9,32 @@ def dep(ctx, m):
     return ctx.method('tx_dependency::TxDependency', m)
 
 
+def ds_ix(on):
+    """X when `on` is the slot of transaction X in dependent_state: `dependent_state[X]` or the `Some` payload of
+    `dependent_state.get(X)` (the checked spelling); else None"""
+    if on is None:
+        return None
+    if on[0] == 'call' and on[1].endswith('::index') and mentions_field(on[2][0], 'dependent_state'):
+        return on[2][1]
+    t = on
+    while t[0] in ('field', 'down'):
+        t = t[1]
+    if t[0] == 'call' and norm_callee(t[1]).endswith(('::get', '::get_mut')) and len(t[2]) == 2 and mentions_field(t[2][0], 'dependent_state') and on[0] in ('field', 'down'):
+        return t[2][1]
+    return None
+
+
+def ds_checked(on):
+    """the slot was obtained through the bounds-checked `get`"""
+    return on is not None and on[0] in ('field', 'down') and ds_ix(on) is not None
+
+
 def ds_guard_indices(e):
     out = []
     for g in e.held:
         on = g[1]
-        if g[0] == 'mutex' and on is not None and on[0] == 'call' and on[1].endswith('::index') and mentions_field(on[2][0], 'dependent_state'):
-            out.append(on[2][1])
+        if g[0] == 'mutex' and ds_ix(on) is not None:
+            out.append(ds_ix(on))
     return out
 
 
@@ -22,9 +42,8 @@ def ds_place(t):
     """t = lock(index(dependent_state, X)).field -> (X, field) else None"""
     if t[0] == 'field' and (t[2].endswith('DependentState.onboard') or t[2].endswith('DependentState.dependency')):
         b = t[1]
-        if b[0] == 'call' and '::lock' in b[1] and b[2] and b[2][0][0] == 'call' and b[2][0][1].endswith('::index') \
-                and mentions_field(b[2][0][2][0], 'dependent_state'):
-            return b[2][0][2][1], t[2].split('.')[-1]
+        if b[0] == 'call' and '::lock' in b[1] and b[2] and ds_ix(b[2][0]) is not None:
+            return ds_ix(b[2][0]), t[2].split('.')[-1]
     return None
 
 
@@ -35,10 +54,9 @@ def track_ds(p):
     holds = {}
     done = []
     for i, e in enumerate(p.events):
-        if e.kind == 'acquire' and e.d['on'] is not None and e.d['on'][0] == 'call' and e.d['on'][1].endswith('::index') \
-                and mentions_field(e.d['on'][2][0], 'dependent_state'):
-            x = e.d['on'][2][1]
-            holds[e.d['guard']] = dict(x=x, acquire=i, release=None, changed=False, onboard=None, dep=None, fetch_min=[], dep_val=None)
+        if e.kind == 'acquire' and ds_ix(e.d['on']) is not None:
+            x = ds_ix(e.d['on'])
+            holds[e.d['guard']] = dict(x=x, acquire=i, release=None, changed=False, onboard=None, dep=None, fetch_min=[], dep_val=None, checked=ds_checked(e.d['on']))
         elif e.kind == 'release' and e.d['guard'] in holds:
             h = holds.pop(e.d['guard'])
             h['release'] = i
@@ -243,7 +261,7 @@ def V1_tables(ctx):
             if not is_add1(h['x'], ('arg', 2)):
                 bad.append(p)
             # the successor exists: txid+1 < num_txs (strict) before its state is indexed
-            if not holds_rel(p, h['acquire'] + 1, lambda op, l, r: op == 'Lt' and is_add1(l, ('arg', 2)) and mentions_field(r, 'num_txs')):
+            if not h.get('checked') and not holds_rel(p, h['acquire'] + 1, lambda op, l, r: op == 'Lt' and is_add1(l, ('arg', 2)) and mentions_field(r, 'num_txs')):
                 bad.append(p)
             on_true = [e for e in p.events if e.kind == 'atom' and e.d['term'][0] == 'field' and ds_place(e.d['term']) and ds_place(e.d['term'])[1] == 'onboard' and e.d['outcome'] == 'true']
             if on_true:
